@@ -6,7 +6,7 @@ from checks import C15
 
 UNITS = ['Opcodes', 'Codec', 'Disasm', 'Asm']
 MODELS = ['theories/Cases.vo', 'theories/RoundTrip.vo']
-PROOFS = ['theories/AsmProofs.v', 'theories/AsmEncode.v', 'theories/DisasmProofs.v', 'theories/CodecProofs.v', 'theories/RoundTripProofs.v']
+PROOFS = ['theories/AsmProofs.v', 'theories/AsmEncode.v', 'theories/DisasmProofs.v', 'theories/CodecProofs.v', 'theories/RoundTripProofs.v', 'theories/NumText.v', 'theories/TextParse.v', 'theories/RenderText.v', 'theories/RoundTripFinal.v']
 
 HEADER = '''From Coq Require Import ZArith List Bool String.
 From RbpfV Require Import MachInt Ebpf Cases Fmt DisasmDefs DisasmSpec AsmDefs AsmParser AsmModel RoundTrip.
@@ -154,7 +154,8 @@ def run(chk):
     vlib.report_broken(chk, res, found)
     chk.cov['trusted_base'] = ['Coq 8.16.1 kernel + vm_compute', 'no axioms', 'translator tools/rs2v (units Disasm, Asm, Codec, Opcodes)',
                                'theories/AsmParser.v (hand model, tie B)', 'theories/RoundTrip.v canonical-form specification', 'harness/']
-    chk.assumptions = ['PARTIAL: the two halves are proved separately (C15: text = specified rendering; C13: parsed text -> specified bytes); that the '
-                       'parser model maps the rendered text back to the rendered operands is checked by evaluation on the generated programs, not yet by a theorem']
-    chk.cov['explanation'] = ('composition of the C15 and C13 theorems through the parser model; the closing lemma parse(render i) = operands of i is validated '
-                              'by the correspondence (model = implementation = canonical-form specification on every generated program)')
+    chk.assumptions = ['theorems cover every renderable program (all opcodes except tail_call and byte swaps of width other than 16/32/64; for those the '
+                       'rejection of the text is evaluated, not proved)', 'the parser is the hand model AsmParser.v (tie B)']
+    chk.cov['explanation'] = ('theorem C16_roundtrip: for every program in the domain, of any length and field values, the composed model returns the canonical '
+                              'form when every instruction is expressible and an error otherwise (corollaries: exact reproduction; accepted => canonical); '
+                              'correspondence: real disassemble+assemble = composed model = canonical-form specification on generated programs')
